@@ -95,7 +95,7 @@ def life_stage(work, res, tier, prefixes, replay=None):
                    "results": [{"what": "process", "role": "whole", "gate": "", "res": "panic" if why not in ("deadlock", "hang") else "blocked",
                                 "err": (first[0] if first else why)[:160], "tookMs": 0, "timeoutMs": 0, "mayPanic": False,
                                 "parked": False, "parkedMs": 0, "waited": False, "signalable": False, "afterShutdown": False,
-                                "repeat": False, "nodeOps": 0, "stage": "?", "selfAfter": "?", "peerAlive": False, "leaving": False}]}
+                                "repeat": False, "nodeOps": 0, "stage": "?", "selfAfter": "?", "peerAlive": False, "leaving": False, "peerListed": False, "sentBefore": False}]}
             with open(os.path.join(d, "t%d.ndjson" % p["i"]), "a") as fh:
                 fh.write(json.dumps(rec) + "\n")
             log("lifecycle harness shard %d died on schedule %d (%s); resuming" % (p["i"], case, rec["results"][0]["err"]))
